@@ -67,7 +67,10 @@ pub fn check_tree(ctx: &Ctx, c: &Case, count: bool) -> Verdict {
     for d in &tree.dirs { if d.url != "/" && d.has_index { paths.push(d.url.clone()); paths.push(format!("{}/", d.url)); } }
     paths.retain(|p| !p.contains('#') && !p.contains('?'));
     paths.sort(); paths.dedup();
-    let fixed_variants: [(&str, &str); 7] = [
+    // Origins whose host is the request's own Host (another port, another scheme, other letter case) are cross-origin requests like any other
+    let fixed_variants: [(&str, &str); 9] = [
+        ("origin-on-the-host-of-the-request", "Origin: http://localhost:3000\r\n"),
+        ("preflight-from-the-host-of-the-request", "Origin: https://LOCALHOST\r\nAccess-Control-Request-Method: PUT\r\nAccess-Control-Request-Headers: X-Custom, Content-Type\r\n"),
         ("multirange", "Range: bytes=0-0, 2-3\r\n"),
         // what a browser sends for fetch(url, {method: 'PUT'}) without custom headers, and for a GET with a custom header
         ("preflight-method-only", "Origin: https://app.example\r\nAccess-Control-Request-Method: PUT\r\n"),
@@ -114,12 +117,13 @@ pub fn check_tree(ctx: &Ctx, c: &Case, count: bool) -> Verdict {
                 // OPTIONS
                 if o.status / 100 != 2 { problems.push((format!("options-status-{}{}", o.status, if legacy { ":legacy" } else { "" }), format!("OPTIONS {} -> {} where GET -> {}", tag, o.status, g.status))); break 'outer; }
                 if !o.body.is_empty() { problems.push(("options-response-has-body".into(), format!("OPTIONS {} carries {} body bytes", tag, o.body.len()))); break 'outer; }
+                let sent_origin = extra.lines().find_map(|l| l.strip_prefix("Origin: ")).unwrap_or("");
                 if restricted { *classes.entry("restricted-cors-configuration").or_insert(0) += 1; }
                 // the grants themselves are judged for the default configuration only (C11 varies the configuration and judges them against M-CORS)
                 if restricted {
                     // a listed origin must get the configured preflight grants (M-CORS as in C11: the lists as configured, joined by commas)
                     let k = c.cors.as_ref().unwrap();
-                    if (*vname == "origin" || vname.starts_with("preflight")) && k.origins.iter().any(|o| o == "https://app.example") {
+                    if (*vname == "origin" || vname.starts_with("preflight")) && sent_origin == "https://app.example" && k.origins.iter().any(|o| o == "https://app.example") {
                         let want: [(&str, String); 4] = [("Access-Control-Allow-Origin", "https://app.example".to_string()), ("Access-Control-Allow-Methods", k.methods.join(",")), ("Access-Control-Allow-Headers", k.headers.join(",")), ("Access-Control-Max-Age", "600".to_string())];
                         for (name, value) in want.iter() {
                             if o.get(name).map(|v| v.to_lowercase()) != Some(value.to_lowercase()) { problems.push(("options-without-configured-preflight-grant".into(), format!("OPTIONS {} under {:?}: {} is {:?} where {:?} is configured", tag, k, name, o.get(name), value))); break 'outer; }
@@ -127,19 +131,19 @@ pub fn check_tree(ctx: &Ctx, c: &Case, count: bool) -> Verdict {
                     }
                     continue;
                 }
-                if *vname == "origin" || vname.starts_with("preflight") {
-                    if o.get("Access-Control-Allow-Origin") != Some("https://app.example") { problems.push(("options-without-allow-origin-grant".into(), format!("OPTIONS {}: Access-Control-Allow-Origin {:?}", tag, o.get("Access-Control-Allow-Origin")))); break 'outer; }
+                if vname.starts_with("origin") || vname.starts_with("preflight") {
+                    if o.get("Access-Control-Allow-Origin") != Some(sent_origin) { problems.push(("options-without-allow-origin-grant".into(), format!("OPTIONS {}: Access-Control-Allow-Origin {:?}", tag, o.get("Access-Control-Allow-Origin")))); break 'outer; }
                     if o.get("Access-Control-Allow-Credentials") != Some("true") { problems.push(("options-without-credentials-grant".into(), format!("OPTIONS {}", tag))); break 'outer; }
                 }
                 if *vname == "preflight-method-only" && o.get("Access-Control-Allow-Methods") != Some("PUT") { problems.push(("preflight-methods-grant-wrong".into(), format!("OPTIONS {}: Access-Control-Allow-Methods {:?}", tag, o.get("Access-Control-Allow-Methods")))); break 'outer; }
                 if *vname == "preflight-headers-only" && o.get("Access-Control-Allow-Headers").map(|v| v.to_lowercase()) != Some("x-custom, content-type".to_string()) { problems.push(("preflight-headers-grant-wrong".into(), format!("OPTIONS {}: Access-Control-Allow-Headers {:?}", tag, o.get("Access-Control-Allow-Headers")))); break 'outer; }
-                if *vname == "preflight" {
+                if *vname == "preflight" || *vname == "preflight-from-the-host-of-the-request" {
                     if o.get("Access-Control-Allow-Methods") != Some("PUT") { problems.push(("preflight-methods-grant-wrong".into(), format!("OPTIONS {}: Access-Control-Allow-Methods {:?}", tag, o.get("Access-Control-Allow-Methods")))); break 'outer; }
                     if o.get("Access-Control-Allow-Headers").map(|v| v.to_lowercase()) != Some("x-custom, content-type".to_string()) { problems.push(("preflight-headers-grant-wrong".into(), format!("OPTIONS {}: Access-Control-Allow-Headers {:?}", tag, o.get("Access-Control-Allow-Headers")))); break 'outer; }
                 }
                 let nt = path != "/";
                 *classes.entry(match &sel { Selected::File { rule, .. } => match *rule { "dir-index" => "dir-index", "html-fallback" => "html-fallback", "root-index" => "root-index", "asset" => "asset-file", _ => "file" }, Selected::BuiltIn(_) => "built-in", _ => "?" }).or_insert(0) += 1;
-                *classes.entry(match *vname { "plain" => "variant-plain", "origin" => "variant-origin", "preflight" => "variant-preflight", "multirange" => "variant-multirange", "preflight-method-only" => "variant-preflight-method-only", "preflight-headers-only" => "variant-preflight-headers-only", "vocabulary" => "variant-vocabulary-headers", _ => "variant-range" }).or_insert(0) += 1;
+                *classes.entry(match *vname { "plain" => "variant-plain", "origin" => "variant-origin", "preflight" => "variant-preflight", "multirange" => "variant-multirange", "preflight-method-only" => "variant-preflight-method-only", "preflight-headers-only" => "variant-preflight-headers-only", "vocabulary" => "variant-vocabulary-headers", "origin-on-the-host-of-the-request" | "preflight-from-the-host-of-the-request" => "variant-origin-on-the-request's-own-host", _ => "variant-range" }).or_insert(0) += 1;
                 if legacy { *classes.entry("legacy-entry").or_insert(0) += 1; }
                 if count && nt {
                     ctx.nontrivial.borrow_mut().insert(hash64(&(hash64(&format!("{:?}", c.tree)), path.clone(), *vname, legacy)));
